@@ -154,6 +154,7 @@ func runGenPaths(out string) error {
 	})
 
 	var sites []site
+	var units []*pkgUnit
 	for _, p := range own {
 		var files []*ast.File
 		for _, n := range p.GoFiles {
@@ -168,6 +169,7 @@ func runGenPaths(out string) error {
 		if _, err := conf.Check(p.ImportPath, fset, files, info); err != nil {
 			return fmt.Errorf("type-check %s: %v", p.ImportPath, err)
 		}
+		units = append(units, &pkgUnit{path: p.ImportPath, files: files, info: info})
 		// where = file:function (no line numbers: the table changes only when a site does)
 		fn := ""
 		rel := func(pos token.Pos) string {
@@ -251,6 +253,15 @@ func runGenPaths(out string) error {
 			})
 		}
 	}
+	// the type-driven enumeration (pathsinks.go): every expression that flows into a `Path []any` field
+	sinks, more, err := pathSinks(fset, repo, units)
+	if err != nil {
+		return err
+	}
+	if len(sinks) < 10 {
+		return fmt.Errorf("translator found only %d writes to path carriers", len(sinks))
+	}
+	sites = append(sites, more...)
 	sort.Slice(sites, func(i, j int) bool {
 		a, b := sites[i], sites[j]
 		if a.where != b.where {
@@ -285,6 +296,15 @@ func runGenPaths(out string) error {
 			sep = ""
 		}
 		fmt.Fprintf(&b, "  (%s, %s, %s, %s)%s\n", leanStr(s.where), leanStr(s.ctx), leanStr(s.expr), leanStr(s.typ), sep)
+	}
+	b.WriteString("]\n\n/-- (file:function, shape, expression) of every expression written to a carrier of a path: a `Path []any` field, or a\n    variable / parameter / field / function result that flows into one (harness/cmd/c19/pathsinks.go) -/\n")
+	b.WriteString("def pathSinks : List (String × String × String) := [\n")
+	for i, s := range sinks {
+		sep := ","
+		if i == len(sinks)-1 {
+			sep = ""
+		}
+		fmt.Fprintf(&b, "  (%s, %s, %s)%s\n", leanStr(s.where), leanStr(s.shape), leanStr(s.expr), sep)
 	}
 	b.WriteString("]\n\nend Gozod.Gen.C19PathTypes\n")
 	if old, err := os.ReadFile(out); err == nil && string(old) == b.String() {
